@@ -651,6 +651,16 @@ impl Group {
         key_tag: u16,
         cache: &SigCache,
     ) -> bool {
+        // The verdict of check_sig depends on the current time (RFC 4035,
+        // Section 5.3.1). Only verdicts for a signature that is within its
+        // validity period may be taken from, or stored in, the cache.
+        let ts_now = Timestamp::now();
+        if ts_now.canonical_gt(&sig.data().expiration())
+            || ts_now.canonical_lt(&sig.data().inception())
+        {
+            return false;
+        }
+
         let mut signed_data = Vec::<u8>::new();
         sig.data()
             .signed_data(&mut signed_data, &mut self.rr_set())
